@@ -297,3 +297,81 @@ def query_case(draw, like_focus=False):
 
 def vars_enc(vars_):
     return {k: enc(v) for k, v in vars_.items()}
+
+
+# ---------------------------------------------------------------------------------------------------------------------
+# histories: several statements of one shape on one Database (statement caches), keyword arguments in varying order
+# ---------------------------------------------------------------------------------------------------------------------
+HIST_TEXT = st.one_of(st.sampled_from([u'a', u'b', u'first', u"O'Brien", u'100%_!', u'back\\slash', u'Zoë', u'%s', u'', u'x y',
+                                       u'1', u'7', u"''", u'"q"', u'?', u':p1']),
+                      text_st)
+HIST_INT = st.one_of(st.integers(-9, 99), st.sampled_from([0, 1, 7, 2 ** 31 - 1, -2 ** 31]))
+HIST_ATTRS = ['name', 'note', 'tag', 'n']
+
+
+@st.composite
+def history_case(draw):
+    used = {a: [] for a in HIST_ATTRS}
+
+    def value(attr, nullable):
+        if attr == 'n':
+            v = draw(st.one_of(HIST_INT, st.none())) if nullable else draw(HIST_INT)
+        else:
+            v = draw(st.one_of(HIST_TEXT, HIST_TEXT, HIST_TEXT, st.none())) if nullable else draw(HIST_TEXT)
+        used[attr].append(v)
+        return v
+
+    def attrs_in_some_order(base, min_size=1):
+        r = draw(st.integers(0, 9))
+        if r <= 6 and base:
+            cols = list(base)                            # the same column set again ...
+        else:
+            cols = draw(st.lists(st.sampled_from(HIST_ATTRS), min_size=min_size, max_size=4, unique=True))
+        return draw(st.permutations(cols))               # ... written in some order
+
+    base_raw = draw(st.lists(st.sampled_from(HIST_ATTRS), min_size=2, max_size=4, unique=True))
+    base_p = draw(st.lists(st.sampled_from(HIST_ATTRS), min_size=2, max_size=4, unique=True))
+    base_set = draw(st.lists(st.sampled_from(HIST_ATTRS), min_size=2, max_size=3, unique=True))
+    base_get = draw(st.lists(st.sampled_from(HIST_ATTRS), min_size=2, max_size=3, unique=True))
+    ops = []
+    next_r, next_p = 1, 1
+    focus = draw(st.sampled_from(['insert', 'insert', 'entity', 'mixed']))
+    for _ in range(draw(st.integers(2, 9))):
+        if focus == 'insert':
+            kind = draw(st.sampled_from(['insert'] * 5 + ['new', 'get']))
+        elif focus == 'entity':
+            kind = draw(st.sampled_from(['new', 'new', 'set', 'set', 'set', 'get', 'get', 'exists', 'delete']))
+        else:
+            kind = draw(st.sampled_from(['insert', 'insert', 'new', 'new', 'set', 'set', 'get', 'exists', 'delete']))
+        if kind == 'insert':
+            cols = list(attrs_in_some_order(base_raw))
+            cols.insert(draw(st.integers(0, len(cols))), 'id')
+            pairs = [[c, enc(next_r if c == 'id' else value(c, True))] for c in cols]
+            next_r += 1
+            ops.append(['insert', draw(st.sampled_from([None, None, None, 'id'])), pairs])
+        elif kind == 'new':
+            cols = list(attrs_in_some_order(base_p, min_size=0))
+            cols.insert(draw(st.integers(0, len(cols))), 'id')
+            pairs = [[c, enc(next_p if c == 'id' else value(c, c in ('tag', 'n')))] for c in cols]
+            next_p += 1
+            ops.append(['new', pairs])
+        elif kind == 'set':
+            cols = attrs_in_some_order(base_set)
+            reads = draw(st.lists(st.sampled_from(HIST_ATTRS), max_size=2, unique=True))
+            pairs = [[c, enc(value(c, c in ('tag', 'n')))] for c in cols]
+            ops.append(['set', draw(st.integers(0, 5)), reads, pairs, draw(st.sampled_from(['set', 'set', 'assign']))])
+        elif kind == 'delete':
+            ops.append(['delete', draw(st.integers(0, 5)), draw(st.lists(st.sampled_from(HIST_ATTRS), max_size=2, unique=True))])
+        else:
+            cols = attrs_in_some_order(base_get)
+            pairs = []
+            for c in cols:
+                if used[c] and draw(st.integers(0, 9)) <= 7:
+                    v = draw(st.sampled_from(used[c]))
+                    if v is None and c not in ('tag', 'n'):
+                        v = u''
+                else:
+                    v = value(c, c in ('tag', 'n'))
+                pairs.append([c, enc(v)])
+            ops.append([kind, pairs])
+    return {'kind': 'history', 'ops': ops}
